@@ -181,3 +181,12 @@ Example C13_nonvacuous_budget :
   /\ mp_budget [(40, 5, false); (98, 5000, true); (40, 0, false)]%Z 182 0 = BudgetExceeded 2
   /\ mp_budget [(40, 5, false)]%Z 44 0 = BudgetExceeded 0.
 Proof. vm_compute. repeat split. Qed.
+
+(* For EVERY input, both framings, with or without a limit, whatever the
+   outcome: no single read ever asked the stream for more than one buffer
+   (max_memfile_size bytes) — the memory held per read is bounded. *)
+Theorem C13_reads_at_most_one_buffer :
+  forall (data : list N) (sc : list nat) (buf : nat) (maxb : option nat) (cl : Z) (chunked : bool),
+    0 < buf -> bres_small buf (body_read (stream_init data sc) buf maxb cl chunked).
+Proof. exact C13_reads_small_lemma. Qed.
+Print Assumptions C13_reads_at_most_one_buffer.
